@@ -254,6 +254,27 @@ def check_init_type_selector(P, rule):
                                "`Type::new()` that is the function name, not the type" % k["int"], c.file, c.line))
                 else:
                     rule.ok("infer_type_from_init: Type::ctor(..) records path segment 0")
+    # a struct expression `events::Notice { .. }` is typed by the *last* segment of its path (the struct), in both inference functions
+    for nm in ("EventParser::infer_type_from_init", "EventParser::infer_payload_type"):
+        for f in [f_ for f_ in P.find(nm) if f_.id.endswith(nm.split("::")[-1])]:
+            for c in f.calls:
+                if c.bb not in f.reach_blocks or "Punctuated" not in (c.self_ty or "") + c.path:
+                    continue
+                if not any(re.search(r"=Struct$", m_) for m_ in f.must_conditions(c.bb)):
+                    continue
+                sel = None
+                if c.name in ("first", "last"):
+                    sel = c.name
+                elif c.name == "index" and len(c.args) > 1 and op_const(c.args[1]) and "int" in op_const(c.args[1]):
+                    sel = "[%d]" % op_const(c.args[1])["int"]
+                if sel is None:
+                    continue
+                n += 1
+                if sel == "last":
+                    rule.ok("%s: a struct expression is typed by the last path segment" % nm.split("::")[-1])
+                else:
+                    rule.bad(V(rule.id, f.id, "struct-expr-type-from:%s" % sel, "%s types the payload `module::Type { .. }` with path segment %s: "
+                               "that is the module, not the struct" % (nm.split("::")[-1], sel), c.file, c.line))
     return n
 
 
